@@ -203,6 +203,7 @@ func firstLines(s string, n int) string {
 }
 
 type solveCfg struct {
+	coverPhase bool // internal: only the `cover` obligations of split cases are solved
 	dir     string
 	quickS  int
 	fullS   int
@@ -211,6 +212,46 @@ type solveCfg struct {
 
 // solveAll discharges the obligations of the given VCs in parallel.
 func solveAll(vcs []*VC, cfg solveCfg) {
+	// cases of a complete `split` that cannot occur (e.g. the out-of-range ends of a split
+	// over a one-bit quantity): their precondition is unsatisfiable, so every obligation
+	// of that case holds trivially. Decided first, so that no solver time is spent on them;
+	// at least one case of every split function must be satisfiable.
+	var covers []*VC
+	for _, vc := range vcs {
+		if len(vc.splitCases) > 0 {
+			covers = append(covers, vc)
+		}
+	}
+	if len(covers) > 0 && !cfg.coverPhase {
+		var cvcs []*VC
+		for _, vc := range covers {
+			cvcs = append(cvcs, vc)
+		}
+		c2 := cfg
+		c2.coverPhase = true
+		solveAll(cvcs, c2)
+		live := map[*Contract]bool{}
+		for _, vc := range covers {
+			for _, o := range vc.obls {
+				if o.Kind == "cover" && o.Status == "proved" {
+					live[vc.contract] = true
+				}
+			}
+		}
+		for _, vc := range covers {
+			vac := false
+			for _, o := range vc.obls {
+				if o.Kind == "cover" && o.Status == "failed" {
+					vac = true
+				}
+			}
+			if vac && live[vc.contract] {
+				for _, o := range vc.obls {
+					o.Status, o.Solver, o.Detail = "proved", "trivial", "case of a complete split that cannot occur (unsatisfiable case condition)"
+				}
+			}
+		}
+	}
 	type job struct {
 		vc *VC
 		o  *Obligation
@@ -218,7 +259,7 @@ func solveAll(vcs []*VC, cfg solveCfg) {
 	var jobs []job
 	for _, vc := range vcs {
 		for _, o := range vc.obls {
-			if o.Status == "" {
+			if o.Status == "" && (!cfg.coverPhase || o.Kind == "cover") {
 				jobs = append(jobs, job{vc, o})
 			}
 		}
